@@ -2,6 +2,7 @@
 Helper lemmas about the width selection model (cff/write.go selectWidths, repaired).
 -/
 import SfntV.Model.CffWidths
+import SfntV.Model.T2Encode
 
 namespace SfntV.Cff
 open SfntV
@@ -53,5 +54,157 @@ theorem truncFx_exact (w : Int) (h : fxIntegral w = true) : truncFx w * fxOne = 
     have := h; simp only [fxIntegral, fxOne] at this; exact of_decide_eq_true this
   unfold truncFx fxOne
   split <;> omega
+
+
+/-! ### every width is within reach of the nominal width -/
+
+theorem foldl_min_le (l : List Int) : ∀ (a : Int), l.foldl min a ≤ a ∧ ∀ x ∈ l, l.foldl min a ≤ x := by
+  induction l with
+  | nil => intro a; exact ⟨Int.le_refl _, fun x hx => by simp at hx⟩
+  | cons y ys ih =>
+    intro a
+    obtain ⟨h1, h2⟩ := ih (min a y)
+    simp only [List.foldl_cons]
+    refine ⟨by omega, ?_⟩
+    intro x hx
+    rcases List.mem_cons.mp hx with rfl | hx
+    · omega
+    · exact h2 x hx
+
+theorem foldl_max_ge (l : List Int) : ∀ (a : Int), a ≤ l.foldl max a ∧ ∀ x ∈ l, x ≤ l.foldl max a := by
+  induction l with
+  | nil => intro a; exact ⟨Int.le_refl _, fun x hx => by simp at hx⟩
+  | cons y ys ih =>
+    intro a
+    obtain ⟨h1, h2⟩ := ih (max a y)
+    simp only [List.foldl_cons]
+    refine ⟨by omega, ?_⟩
+    intro x hx
+    rcases List.mem_cons.mp hx with rfl | hx
+    · omega
+    · exact h2 x hx
+
+theorem roundHA_near (a : Int) : 2 * (roundHA a 65536 * 65536 - a).natAbs ≤ 65536 := by
+  unfold roundHA
+  split <;> omega
+
+/-- After the repair of the nominal-width range: whatever the widths are (|w| ≤ 32767), the
+nominal width exists and every glyph that does not use the default width is less than 32768
+away from it, so that the difference is a Type 2 charstring number. -/
+theorem selectWidths_reach (ws : List Int) (hw : ∀ w ∈ ws, w.natAbs ≤ 32767 * 65536) :
+    ∃ nom, (selectWidths ws).2 = some nom ∧
+      ∀ w ∈ ws, w ≠ (selectWidths ws).1 → (w - nom).natAbs < 32768 * 65536 := by
+  unfold selectWidths
+  split
+  · exact ⟨0, rfl, fun w hw' => by simp at hw'⟩
+  · rename_i w
+    cases hi : fxIntegral w with
+    | true =>
+      simp only [Bool.not_true, Bool.false_eq_true, if_false]
+      exact ⟨w, rfl, fun x hx hne => by simp at hx; exact absurd hx hne⟩
+    | false =>
+      simp only [Bool.not_false, if_true]
+      refine ⟨_, rfl, ?_⟩
+      intro x hx _
+      simp only [List.mem_singleton] at hx
+      subst hx
+      have := roundHA_near x
+      simp only [fxOne]
+      omega
+  · simp only
+    generalize mostFrequent ws [] 0 0 = d
+    cases hoth : ws.filter (fun x => decide (x ≠ d)) with
+    | nil =>
+      refine ⟨0, rfl, ?_⟩
+      intro w hw' hne
+      have : w ∈ ws.filter (fun x => decide (x ≠ d)) := List.mem_filter.mpr ⟨hw', by simpa using hne⟩
+      rw [hoth] at this; simp at this
+    | cons o os =>
+      simp only
+      refine ⟨_, rfl, ?_⟩
+      intro w hw' hne
+      have hmem : w ∈ o :: os := by
+        rw [← hoth]; exact List.mem_filter.mpr ⟨hw', by simpa using hne⟩
+      have hsub : ∀ x ∈ o :: os, x.natAbs ≤ 32767 * 65536 := by
+        intro x hx
+        have : x ∈ ws.filter (fun x => decide (x ≠ d)) := by rw [hoth]; exact hx
+        exact hw x (List.mem_filter.mp this).1
+      obtain ⟨mn1, mn2⟩ := foldl_min_le os o
+      obtain ⟨mx1, mx2⟩ := foldl_max_ge os o
+      have hmn : os.foldl min o ≤ w := by
+        rcases List.mem_cons.mp hmem with rfl | h
+        · exact mn1
+        · exact mn2 w h
+      have hmx : w ≤ os.foldl max o := by
+        rcases List.mem_cons.mp hmem with rfl | h
+        · exact mx1
+        · exact mx2 w h
+      -- the extreme values are widths themselves, hence within ±32767
+      have hmnb : -(32767 * 65536 : Int) ≤ os.foldl min o := by
+        have key : ∀ (l : List Int) (a : Int), -(32767 * 65536 : Int) ≤ a → (∀ x ∈ l, -(32767 * 65536 : Int) ≤ x) →
+            -(32767 * 65536 : Int) ≤ l.foldl min a := by
+          intro l
+          induction l with
+          | nil => intro a ha _; exact ha
+          | cons y ys ih =>
+            intro a ha hl
+            simp only [List.foldl_cons]
+            apply ih
+            · have := hl y (List.mem_cons_self ..); omega
+            · exact fun x hx => hl x (List.mem_cons_of_mem _ hx)
+        apply key
+        · have := hsub o (List.mem_cons_self ..); omega
+        · intro x hx; have := hsub x (List.mem_cons_of_mem _ hx); omega
+      have hmxb : os.foldl max o ≤ (32767 * 65536 : Int) := by
+        have key : ∀ (l : List Int) (a : Int), a ≤ (32767 * 65536 : Int) → (∀ x ∈ l, x ≤ (32767 * 65536 : Int)) →
+            l.foldl max a ≤ (32767 * 65536 : Int) := by
+          intro l
+          induction l with
+          | nil => intro a ha _; exact ha
+          | cons y ys ih =>
+            intro a ha hl
+            simp only [List.foldl_cons]
+            apply ih
+            · have := hl y (List.mem_cons_self ..); omega
+            · exact fun x hx => hl x (List.mem_cons_of_mem _ hx)
+        apply key
+        · have := hsub o (List.mem_cons_self ..); omega
+        · intro x hx; have := hsub x (List.mem_cons_of_mem _ hx); omega
+      generalize os.foldl min o = mn at *
+      generalize os.foldl max o = mx at *
+      generalize roundHA ((o :: os).foldl (· + ·) 0) (fxOne * ↑ws.length) * fxOne = nom0
+      have hrange : mx - 32767 * 65536 ≤ nomClamp nom0 mn mx ∧ nomClamp nom0 mn mx ≤ mn + 32767 * 65536 := by
+        unfold nomClamp
+        simp only
+        split
+        · omega
+        · split <;> omega
+      generalize nomClamp nom0 mn mx = nom2 at *
+      have hr := roundHA_near nom2
+      simp only [fxOne]
+      omega
+
+/-- the Type 2 number encoder is exact on 16.16 values below 32768 in absolute value -/
+theorem encodeNumber_exact (m : Int) (h : m.natAbs < 32768 * 65536) : (T2Enc.encodeNumber m 16).1 = m := by
+  unfold T2Enc.encodeNumber
+  simp only
+  have hd : (2 : Nat) ^ 16 = 65536 := by decide
+  rw [hd]
+  split
+  · rename_i hc
+    -- |x16·65536 − m| ≤ 1/2, both integers
+    have : (T2Enc.wrap16 (Int.tdiv m ((65536 : Nat) : Int)) * ((65536 : Nat) : Int) - m).natAbs = 0 := by omega
+    have h0 : T2Enc.wrap16 (Int.tdiv m ((65536 : Nat) : Int)) * ((65536 : Nat) : Int) - m = 0 := by omega
+    simp only at h0 ⊢
+    omega
+  · have hr : T2Enc.roundDiv (m * 65536) 65536 = m := by
+      unfold T2Enc.roundDiv
+      have : (m * 65536).natAbs = m.natAbs * 65536 := by rw [Int.natAbs_mul]; rfl
+      have e : (2 * (m.natAbs * 65536) + 65536) / (2 * 65536) = m.natAbs := by omega
+      simp only [this, e]
+      split <;> omega
+    rw [hr]
+    unfold T2Enc.wrap32
+    rw [if_pos (by omega)]
 
 end SfntV.Cff
